@@ -171,9 +171,11 @@ def streams(seed, tier):
     per2 = {"quick": 2, "thorough": 20, "search": 6}[tier]
     for nm in nong:
         for j in range(per2):
-            st0 = sx_parse(stepgen.step_case(rng, nm, nong, nsafe, profile=j % 2))[2]
+            parsed = sx_parse(stepgen.step_case(rng, nm, nong, nsafe, profile=j % 2))
+            st0 = parsed[2]
             st0[14] = cfg(30, 500)
-            again.append(repeat_case(j % 2, st0, 3, 0, 1, []))
+            # the libm oracle table of the case (LIST.NEIGHBOR* in the debug build) travels with it
+            again.append(sx_str([j % 2, parsed[1], st0, 1, 0, [1, []], [3, 0, 1], []]))
     out.append(Stream("same-call-again", "thr.repeat", "thr.repeat.check", again,
                       "each of the %d deterministic non-GRAPH instructions: a random state whose program starts with it, run three times in a row with one InstructionSet and once more on another thread" % len(nong)))
     # (1c'') measurements of very deeply nested items by earlier runs on the same thread must not change how later runs measure ordinary items
